@@ -137,6 +137,109 @@ theorem latestRightSks_err_iff (msk : Msk) (rights : List Right) :
       rw [← ih]
       cases latestRightSks msk xs <;> simp
 
+/-- encapsulation succeeds exactly when every targeted right has a published key -/
+theorem encaps_ok_iff (mpk : Mpk) (targets : List Right) (n : Rng) :
+    (∃ v, (encaps mpk targets n).1 = .ok v) ↔ ∀ r ∈ targets, (mpk.keys.lookup r).isSome = true := by
+  have key : (∃ ks, mapMExcept mpk.keyOf targets = .ok ks) ↔ ∀ r ∈ targets, (mpk.keys.lookup r).isSome = true := by
+    induction targets with
+    | nil => simp [mapMExcept]
+    | cons x xs ih =>
+      unfold mapMExcept
+      cases hx : mpk.keys.lookup x with
+      | none =>
+        constructor
+        · rintro ⟨ks, h⟩; simp [Mpk.keyOf, hx] at h
+        · intro h
+          have := h x List.mem_cons_self
+          rw [hx] at this; cases this
+      | some k =>
+        simp only [Mpk.keyOf, hx, List.mem_cons, forall_eq_or_imp, Option.isSome_some, true_and]
+        rw [← ih]
+        cases mapMExcept mpk.keyOf xs <;> simp
+  rw [← key]
+  unfold encaps Mpk.selectSubkeys
+  cases mapMExcept mpk.keyOf targets <;> simp
+
+/-- **`refresh` succeeds exactly when** the key passes the integrity check, its identifier is
+registered (and can be re-issued if its tracing level is outdated) and — without `keep` — every
+right the key holds that the master key still knows has a newest secret. Nothing else (rotations,
+prunes, deletions of rights) makes it fail. -/
+theorem refresh_ok_iff (msk : Msk) (usk : Usk) (keep : Bool) (n : Rng) :
+    (refresh msk usk keep n).1 = .ok () ↔
+      verify msk usk = true ∧ usk.id ∈ msk.users ∧ (usk.id.length = msk.ntracers ∨ msk.ntracers ≠ 0) ∧
+      (keep = true ∨ ∀ r ∈ (usk.secrets.map (·.1)).filter (fun r => msk.secrets.containsKey r),
+          (msk.secrets.getLatest r).isSome = true) := by
+  unfold refresh
+  by_cases hv : verify msk usk = true
+  · simp only [hv, Bool.not_true, Bool.false_eq_true, if_false, true_and]
+    have hsec := (refreshId_secrets msk usk.id n).1
+    unfold refreshId at hsec ⊢
+    by_cases hk : usk.id ∈ msk.users
+    · simp only [hk, not_true_eq_false, if_false, true_and] at hsec ⊢
+      by_cases hl : usk.id.length = msk.ntracers
+      · simp only [hl, ne_eq, not_true_eq_false, if_false, true_or, true_and]
+        cases keep with
+        | true => simp
+        | false =>
+          simp only [Bool.false_eq_true, if_false, false_or]
+          have := latestRightSks_err_iff msk ((usk.secrets.map (·.1)).filter (fun r => msk.secrets.containsKey r))
+          cases hlr : latestRightSks msk ((usk.secrets.map (·.1)).filter (fun r => msk.secrets.containsKey r)) with
+          | error e =>
+            rw [hlr] at this
+            constructor
+            · intro h; cases h
+            · intro hall
+              obtain ⟨r, hr, hn⟩ := this.1 ⟨e, rfl⟩
+              have h2 := hall r hr
+              rw [hn] at h2; cases h2
+          | ok v =>
+            rw [hlr] at this
+            simp only [true_iff]
+            intro r hr
+            cases hg : msk.secrets.getLatest r with
+            | some _ => rfl
+            | none => exact absurd (this.2 ⟨r, hr, hg⟩) (by simp)
+      · simp only [hl, ne_eq, not_false_eq_true, if_true, false_or] at hsec ⊢
+        unfold generateUserId at hsec ⊢
+        by_cases hnt : msk.ntracers = 0
+        · simp [hnt]
+        · simp only [hnt, if_false, not_false_eq_true, true_and] at hsec ⊢
+          cases keep with
+          | true => simp
+          | false =>
+            simp only [Bool.false_eq_true, if_false, false_or]
+            -- the master key after the identifier exchange holds the same secrets
+            generalize hm' : ({ ({ msk with users := if (List.range msk.ntracers).map (· + n) ∈ msk.users then msk.users
+                else msk.users ++ [(List.range msk.ntracers).map (· + n)] } : Msk) with
+                users := (if (List.range msk.ntracers).map (· + n) ∈ msk.users then msk.users
+                  else msk.users ++ [(List.range msk.ntracers).map (· + n)]).filter (· ≠ usk.id) } : Msk) = m' at hsec ⊢
+            have hs : m'.secrets = msk.secrets := by rw [← hm']
+            have e2 : ∀ l, latestRightSks m' l = latestRightSks msk l := by
+              intro l
+              induction l with
+              | nil => rfl
+              | cons x xs ih => unfold latestRightSks; rw [hs, ih]
+            rw [e2]
+            have := latestRightSks_err_iff msk ((usk.secrets.map (·.1)).filter (fun r => msk.secrets.containsKey r))
+            cases hlr : latestRightSks msk ((usk.secrets.map (·.1)).filter (fun r => msk.secrets.containsKey r)) with
+            | error e =>
+              rw [hlr] at this
+              constructor
+              · intro h; cases h
+              · intro hall
+                obtain ⟨r, hr, hn⟩ := this.1 ⟨e, rfl⟩
+                have h2 := hall r hr
+                rw [hn] at h2; cases h2
+            | ok v =>
+              rw [hlr] at this
+              simp only [true_iff]
+              intro r hr
+              cases hg : msk.secrets.getLatest r with
+              | some _ => rfl
+              | none => exact absurd (this.2 ⟨r, hr, hg⟩) (by simp)
+    · simp [hk]
+  · simp [hv]
+
 /-- **Refreshing an issued user key succeeds with either flag whatever was rekeyed, pruned or
 deleted in between**: a key generated in some reachable world is refreshable in every world
 reachable from there by any further operations (edits, updates, rekeys, prunes, other key
